@@ -63,6 +63,7 @@ type callPattern struct {
 	recvFunc string // lowered function returning the receiver value
 	iface    *types.Interface
 	dynamic  bool // call of a function value (field or variable of func type)
+	loopContinue bool // `loop_continues()`: pseudo-event recorded at every back edge of the function under contract
 	passing  bool // `call passing T($x)`: any call (static, interface or dynamic) with an argument of static type T
 	elemOf   bool // each(X)(args): call of a function value that is an element of the slice X
 	recvCap     string // capture name of the receiver (T($r).M(...))
@@ -235,6 +236,12 @@ func parseEffect(ec *EffectClause, text string) error {
 func parsePattern(s string) (*callPattern, error) {
 	p := &callPattern{src: s}
 	s = strings.ReplaceAll(s, "$", "cap_")
+	if t := strings.TrimSpace(s); t == "loop_continues()" {
+		// pseudo-call: the enclosing loop of the function under contract proceeds to its next iteration
+		p.loopContinue = true
+		p.recvSrc = "_"
+		return p, nil
+	}
 	if strings.HasPrefix(strings.TrimSpace(s), "call passing ") {
 		ex, err := parser.ParseExpr(strings.TrimSpace(strings.TrimPrefix(strings.TrimSpace(s), "call passing ")))
 		if err != nil {
@@ -426,6 +433,7 @@ func expandTemplates(pkg *packages.Package, cs []*FuncContract) ([]*FuncContract
 func instantiateTemplate(fc *FuncContract, funcName string, sig *types.Signature) *FuncContract {
 	cp := *fc
 	cp.Sel = nil
+	cp.FromTemplate = true
 	cp.Func = funcName
 	cp.sig = sig
 	cp.invs = map[int][]string{}
@@ -832,6 +840,15 @@ type matchInfo struct {
 
 func (e *Engine) matchPattern(sp *ssa.Package, p *callPattern, ev Event, prov func(string) (Val, bool)) (*matchInfo, bool) {
 	mi := &matchInfo{cond: "true", caps: map[string]Val{}}
+	if p.loopContinue {
+		if ev.Callee == "<loop-continues>" {
+			return mi, true
+		}
+		return nil, false
+	}
+	if ev.Callee == "<loop-continues>" {
+		return nil, false
+	}
 	if p.passing {
 		c := p.caps[0]
 		for i, at := range ev.ArgTypes {
@@ -879,8 +896,14 @@ func (e *Engine) matchPattern(sp *ssa.Package, p *callPattern, ev Event, prov fu
 			}
 		}
 	} else if p.static != "" {
-		if ev.Static == nil || (staticFullName(ev.Static) != p.static && ev.Static.String() != p.static) {
+		if ev.Static == nil {
 			return nil, false
+		}
+		if staticFullName(ev.Static) != p.static && ev.Static.String() != p.static {
+			// an instance of a generic function is a call of that generic function
+			if o := ev.Static.Origin(); o == nil || (staticFullName(o) != p.static && o.String() != p.static) {
+				return nil, false
+			}
 		}
 	} else {
 		if ev.Static != nil || ev.Iface == "" {
@@ -1085,6 +1108,7 @@ func (e *Engine) effectObligations(sp *ssa.Package, fc *FuncContract, fn *ssa.Fu
 			return evalWhereIn(caps, nil)
 		}
 		matched := 0
+		var clauseReaches []string
 		for _, ev := range e.events {
 			mi, ok := e.matchPattern(sp, ec.Every, ev, prov)
 			if !ok {
@@ -1185,11 +1209,17 @@ func (e *Engine) effectObligations(sp *ssa.Package, fc *FuncContract, fn *ssa.Fu
 			if ev.Static != nil {
 				callee = ev.Static.Name()
 			}
+			clauseReaches = append(clauseReaches, reach)
 			if ob := e.oblige("effect", ec.Label+":"+callee, reach, goal, ev.Pos); ob == nil && goal != "true" {
 				_ = ob
 			}
 		}
 		e.effectMatches[ec.Label] += matched
+		// vacuity: an `every` clause whose matching calls are all unreachable (a contradiction in what was assumed on the
+		// way, e.g. in a callee contract) proves nothing
+		if !ec.Never && len(clauseReaches) > 0 {
+			e.obls = append(e.obls, Oblig{Name: fnDisplayName(fn) + "#cover:effect:" + ec.Label, Kind: "cover", Reach: or(clauseReaches...), Goal: "false", NFacts: len(e.facts), Pos: e.fset.Position(fn.Pos()), Expect: "sat"})
+		}
 	}
 }
 
